@@ -266,6 +266,34 @@ def run_case(case):
             if float(fresh.f(list(q))) != float(obj.f(list(q))):
                 V("value_depends_on_evaluation_history_not_only_on_x", x=q, order="reversed")
                 break
+    # the same coordinates in other containers / number types (a tuple, an ndarray of floats, Python ints or an integer
+    # ndarray where the coordinates are whole numbers): f is a function of the point, not of how it is spelt.  The
+    # lattice of the domain (end points, integers, half-integers, zeros) and the maximisers are where a truthiness or
+    # type test goes wrong
+    nice = []
+    for lo, hi in dom:
+        nice.append(sorted({float(v) / 2 for v in range(int(math.ceil(2 * lo)), int(math.floor(2 * hi)) + 1)}
+                           | {lo, hi} | ({0.0, -0.0} if lo <= 0.0 <= hi else set())))
+    cont_pts = [list(q) for q in __import__("itertools").islice(__import__("itertools").product(*nice), 400)]
+    cont_pts += [list(m) for m in maximisers] + [list(p) for p in pts[:20]]
+    for q in cont_pts:
+        want = float(obj.f([float(v) for v in q]))
+        forms = [("tuple", tuple(float(v) for v in q)), ("ndarray", np.array([float(v) for v in q]))]
+        if all(float(v).is_integer() for v in q):
+            forms += [("list of int", [int(v) for v in q]), ("int ndarray", np.array([int(v) for v in q]))]
+        for label, x in forms:
+            obs["evaluations_in_other_containers"] += 1
+            try:
+                got = float(obj.f(x))
+            except Exception as e:
+                V("evaluation_raises_on_a_point_of_the_documented_domain", x=q, container=label, error=repr(e)[:200])
+                break
+            if got != want and not (math.isnan(got) and math.isnan(want)) and abs(got - want) > 1e-12 * max(1.0, abs(want)):
+                V("value_depends_on_the_container_of_the_point", x=q, container=label, got=got, want=want)
+                break
+        else:
+            continue
+        break
     st1 = obj.__dict__
     if set(st1) != set(state0) or any(repr(st1[k]) != repr(state0[k]) for k in state0):
         V("object_attributes_changed_by_evaluation", before=state0, after=dict(st1))
